@@ -29,7 +29,12 @@ pub fn compute_state_root(store: &tensor_store::TensorStore) -> Result<BlockHash
             .get(&key)
             .map_err(|e| ChainError::StorageError(e.to_string()))?;
 
-        let mut field_keys: Vec<&String> = data.keys().collect();
+        // Creation/update stamps are taken from the local clock (e.g. the graph nodes that
+        // link chain blocks) and differ between replicas that apply the same blocks.
+        let mut field_keys: Vec<&String> = data
+            .keys()
+            .filter(|k| k.as_str() != "_created_at" && k.as_str() != "_updated_at")
+            .collect();
         field_keys.sort();
         let field_count = field_keys.len() as u64;
         hasher.update(field_count.to_le_bytes());
